@@ -123,6 +123,9 @@ func (n *Native) Run(pkg string, items []NativeItem, timeoutMs int) (map[string]
 	for start < len(items) {
 		cmd := exec.Command(bin, "-test.run", "^TestZZVerifNative$", "-test.timeout", "0")
 		cmd.Dir = filepath.Join(n.P.RepoDir, pkg)
+		if _, err := os.Stat(cmd.Dir); err != nil {
+			cmd.Dir = n.P.RepoDir // virtual harness package
+		}
 		cmd.Env = append(n.env, "VN_VECTORS="+vf, "VN_START="+strconv.Itoa(start), "VN_TIMEOUT_MS="+strconv.Itoa(timeoutMs), "VN_PARAMS="+n.Params, "VN_ASSERT_PREFIX="+n.P.AssertPrefix)
 		var stdout, stderr bytes.Buffer
 		cmd.Stdout = &stdout
